@@ -2,9 +2,17 @@
 package c20
 
 import (
+	"encoding/json"
+	"fmt"
+	"os"
+	"path/filepath"
+	"time"
+
+	"verif/internal/corpus"
 	"verif/internal/evidence"
 	"verif/internal/gharness"
 	"verif/internal/govl"
+	"verif/internal/jbuild"
 	"verif/internal/known"
 )
 
@@ -41,6 +49,80 @@ func Spec(tier string, seed int64, workers int) gharness.Spec {
 	return sp
 }
 
-func Run(tier string, seed int64, workers int) int { return gharness.Run(Spec(tier, seed, workers)) }
+// e2eSpec is the end-to-end facet: the real build.Session with the cache switched on, over the simulated disk.
+func e2eSpec(tier string, seed int64, workers int) gharness.Spec {
+	n := 8
+	if tier == "thorough" {
+		n = 80
+	}
+	return gharness.Spec{Property: "C20", Tier: tier, Seed: seed, Workers: workers, Pkg: "./build", Level: "fault_enumeration", EnumShards: workers, Timeout: 60 * time.Minute,
+		EnumTests: []string{"TestVerifCacheE2E"},
+		Prepare: func(scratch string) ([]string, error) {
+			list, err := corpus.Generate(filepath.Join(scratch, "corpus"), seed+20, n)
+			if err != nil {
+				return nil, err
+			}
+			b, _ := json.Marshal(list)
+			lp := filepath.Join(scratch, "corpus.json")
+			if err := os.WriteFile(lp, b, 0o644); err != nil {
+				return nil, err
+			}
+			return []string{"VERIF_C17_LIST=" + lp}, nil
+		},
+		Setup: func(o *govl.Overlay) error {
+			if err := o.AddFromVerif("simfs/simfs.go", "internal/verifsimfs/simfs.go"); err != nil {
+				return err
+			}
+			if err := o.AddFromVerif("c20/c20e2e_test.go.txt", "build/zz_verif_c20e2e_test.go"); err != nil {
+				return err
+			}
+			return o.SwapImport("build/cache/cache.go", "os", "github.com/gopherjs/gopherjs/internal/verifsimfs")
+		},
+		KnownMatch: func(kf *known.File, class, msg, point string) string { return "" },
+	}
+}
 
-func Replay(rp *evidence.Replay) int { return gharness.Replay(Spec("quick", rp.Seed, 1), rp) }
+func Run(tier string, seed int64, workers int) int {
+	start := time.Now()
+	code, ev := gharness.RunCollect(Spec(tier, seed, workers))
+	if ev == nil {
+		return 2
+	}
+	code2, ev2 := gharness.RunCollect(e2eSpec(tier, seed, workers))
+	if ev2 == nil {
+		return 2
+	}
+	ev.Coverage["evaluations"] = ev.Coverage["evaluations"].(int) + ev2.Coverage["evaluations"].(int)
+	ev.Coverage["distinct_nontrivial"] = ev.Coverage["distinct_nontrivial"].(int) + ev2.Coverage["distinct_nontrivial"].(int)
+	ev.Coverage["end_to_end_counters"] = ev2.Coverage["counters"]
+	ev.Coverage["rule"] = ev.Coverage["rule"].(string) + "; end-to-end: one evaluation = one in-process build of a corpus program by the real build.Session with the cache on (cold, warm, over a seeded damaged cache directory, after a crash at a seeded file-system call of the cold build), its output hashes compared with the build from source"
+	ev.Violations += ev2.Violations
+	ev.WallS = time.Since(start).Seconds()
+	if err := ev.Write(jbuild.VerifDir()); err != nil {
+		fmt.Fprintln(os.Stderr, err)
+		return 2
+	}
+	if code == 2 || code2 == 2 {
+		return 2
+	}
+	if code == 1 || code2 == 1 {
+		return 1
+	}
+	return 0
+}
+
+func Replay(rp *evidence.Replay) int {
+	if rp.FoundAt != "" && len(rp.FoundAt) > 0 && containsE2E(rp.FoundAt) {
+		return gharness.Replay(e2eSpec("quick", rp.Seed, 1), rp)
+	}
+	return gharness.Replay(Spec("quick", rp.Seed, 1), rp)
+}
+
+func containsE2E(s string) bool {
+	for i := 0; i+len("TestVerifCacheE2E") <= len(s); i++ {
+		if s[i:i+len("TestVerifCacheE2E")] == "TestVerifCacheE2E" {
+			return true
+		}
+	}
+	return false
+}
